@@ -436,6 +436,28 @@ theorem zipSrc_contract (sa sb : Side) (f : Nat → Option Id) (ha : sa.GoodA) (
       Zip2.owned, List.append_nil]
     exact ⟨trivial, trivial, trivial, trivial⟩
 
+theorem iterSrc_contract : Contract iterSrc Consumer.owned Consumer.Sync where
+  yield := by
+    intro c evs x c' hi h
+    simp only [iterSrc] at h
+    cases hx : c.slots[c.idx]? <;> simp only [hx] at h <;> cases h
+    unfold Consumer.Sync at hi
+    rw [hi] at hx
+    refine ⟨?_, rfl, rfl⟩
+    simp only [Consumer.owned, drop_of_getElem? hx, iterSrc, gives_nil, drops_nil, takes_nil, if_true, hi,
+      List.nil_append, List.append_nil]
+    exact List.Perm.refl _
+  done := by
+    intro c evs c' hi h
+    simp only [iterSrc] at h
+    cases hx : c.slots[c.idx]? <;> simp only [hx] at h <;> cases h
+    exact ⟨by simp, rfl, hi⟩
+  panic := by
+    intro c evs c' hi h
+    simp only [iterSrc] at h
+    cases hx : c.slots[c.idx]? <;> simp only [hx] at h <;> cases h
+  drop := by intro c; exact consumer_dropEv c
+
 theorem scriptSrc_contract : Contract scriptSrc (fun _ => []) (fun _ => True) where
   yield := by
     intro s evs x s' _ h
